@@ -137,6 +137,12 @@ def limit_memory(gb=6):
         resource.setrlimit(resource.RLIMIT_AS, (gb << 30, gb << 30))
     except Exception:
         pass
+    try:    # kill -USR1 <worker pid> prints where a busy worker is (diagnostics only)
+        import faulthandler
+        import signal
+        faulthandler.register(signal.SIGUSR1, all_threads=True)
+    except Exception:
+        pass
 
 
 class OpBudgetExceeded(BaseException):
@@ -385,10 +391,16 @@ class Ctx:
         def body(case):
             last["current"] = case
             arm_watchdog()
+            t_case = time.time()
             try:
                 f = guarded(oracle, case, ctx.prop)
             finally:
                 disarm_watchdog()
+                dt = time.time() - t_case
+                if dt > 2.0:
+                    slow = ctx.stats.notes.setdefault("slow cases (>2s) in " + name, [])
+                    if len(slow) < 5:
+                        slow.append("%.1fs %s" % (dt, short(case, 300)))
             if f is None:
                 return
             if ctx.is_known(f):
